@@ -88,6 +88,19 @@ func propC09(run *Run, n int) {
 	for _, idx := range []int64{999999, 1000000, 1000001, 12345678, 2147483647, 2147483648, 4294967296, 4503599627370496} {
 		addC09Tie(run, fmt.Sprintf("< ( s K\"6974656d73 I%d | #3ff0000000000000 | #4000000000000000 | \"78 | #4008000000000000 ) >", idx))
 	}
+	// hand-written hunks the renderer must refuse with an error: context on a path that does not end in an index,
+	// context at the empty path, two lines of before / after context (tie only)
+	for _, dw := range []string{
+		"< ( s K\"61 | #3ff0000000000000 | #4000000000000000 | \"78 | ) >",
+		"< ( s K\"61 | | #4000000000000000 | \"78 | #4008000000000000 ) >",
+		"< ( s | #3ff0000000000000 | #4000000000000000 | \"78 | ) >",
+		"< ( s | | #4000000000000000 | \"78 | #4008000000000000 ) >",
+		"< ( s I1 | #3ff0000000000000 #3ff0000000000000 | #4000000000000000 | \"78 | ) >",
+		"< ( s I1 | | #4000000000000000 | \"78 | #4008000000000000 #4008000000000000 ) >",
+		"< ( s I0 | V | #4000000000000000 | \"78 | V ) >",
+	} {
+		addC09Tie(run, dw)
+	}
 	for i := 0; i < n; i++ {
 		cfg := fmtCfg(r)
 		a, b := cfg.Pair(r)
